@@ -554,10 +554,10 @@ def check_cff2_program(acc, case):
 # whole-font legs
 
 
-def _load(data):
+def _load(data, recalcBBoxes=True):
     from fontTools.ttLib import TTFont
 
-    return TTFont(io.BytesIO(data))
+    return TTFont(io.BytesIO(data), recalcBBoxes=recalcBBoxes)
 
 
 def _save(font):
@@ -571,18 +571,28 @@ def _top(font):
     return font[tag].cff.topDictIndex[0], tag
 
 
+def _cff_order(font):
+    """Glyph names in glyph-index order as the CFF table itself knows them (after CFF2->CFF the
+    charset is renamed to cidNNNNN while the TTFont keeps its glyph order: access is by index)."""
+    top, tag = _top(font)
+    if tag == "CFF " and getattr(top, "charset", None):
+        return list(top.charset)
+    return list(font.getGlyphOrder())
+
+
 def _font_programs(font):
     """Draw every glyph (decompiles glyph programs and, in context, the subrs they use).
-    -> {name: dict(ops, width, prog, lsubrs(list of progs/bytes), private)} and the global subr programs."""
+    -> list by glyph index of dict(name, ops, width, prog, lsubrs(list of progs/bytes), private),
+    the global subr programs, and the table tag."""
     top, tag = _top(font)
     cs_map = top.CharStrings
-    out = {}
-    for name in font.getGlyphOrder():
+    out = []
+    for name in _cff_order(font):
         cs = cs_map[name]
         ops, w = _cs_draw(cs)
-        out[name] = dict(ops=ops, width=w, cs=cs)
+        out.append(dict(name=name, ops=ops, width=w, cs=cs))
     gs = [_subr_prog(s) for s in font[tag].cff.GlobalSubrs]
-    for name, d in out.items():
+    for d in out:
         cs = d["cs"]
         cs.decompile()
         d["prog"] = list(cs.program)
@@ -591,48 +601,54 @@ def _font_programs(font):
     return out, gs, tag
 
 
-def _compare_font(acc, clause, base, font, case, exact=True, tols=None, widths="cs", hmtx=None, forbid=(), where="", base_kinds=None, check_progs=True, saved_roundtrip=True, hb_check=None):
-    """Compare every glyph of a rewritten font with the baseline {name: (ops, width)}.
-    widths: "cs" compare charstring width with the baseline, "hmtx" compare with the hmtx advance
-    (formats/paths where the charstring width is re-derived), None: no width in the charstring (CFF2)."""
+def _compare_font(acc, clause, base, font, case, exact=True, tols=None, widths="cs", hmtx=None, forbid=(), where="", base_kinds=None, check_progs=True, saved_roundtrip=True, hb_check=None, recalcBBoxes=True):
+    """Compare every glyph (by glyph index) of a rewritten font with the baseline list [(ops, width)].
+    widths: "cs" compare the charstring width with the baseline, "hmtx" compare it with the hmtx advance
+    (paths where the charstring width is re-derived), None: no width in the charstring (CFF2)."""
     try:
         with acc.guard(clause + "-draw-raises", case):
             cur, gs, tag = _font_programs(font)
     except Allowed:
         return None
     fmt = "cff" if tag == "CFF " else "cff2"
-    for name, (b_ops, b_w) in base.items():
-        if name not in cur:
-            acc.fail(clause, "glyph-lost", "%s %s" % (where, name), case, where)
-            continue
-        c = cur[name]
-        tol = (tols or {}).get(name, 0.0)
+    if len(cur) != len(base):
+        acc.fail(clause, "glyph-count-changed", "%s %d -> %d" % (where, len(base), len(cur)), case, where)
+        return None
+    for gid, ((b_ops, b_w), c) in enumerate(zip(base, cur)):
+        name = c["name"]
+        tol = tols[gid] if tols else 0.0
         ok, d = exact_same(b_ops, c["ops"], tol) if exact else fill_same(b_ops, c["ops"], tol, acc)
         if not ok:
-            acc.fail(clause, "outline-changed", "%s glyph %s: %s; now %s" % (where, name, d, short(c["prog"], 300)), case, where)
+            acc.fail(clause, "outline-changed", "%s glyph %d %s: %s; now %s" % (where, gid, name, d, short(c["prog"], 300)), case, where)
         if widths == "cs" and c["width"] != b_w:
-            acc.fail(clause, "width-changed", "%s glyph %s: width %r -> %r; now %s" % (where, name, b_w, c["width"], short(c["prog"], 200)), case, where)
-        if widths == "hmtx" and hmtx is not None and c["width"] != hmtx[name]:
-            acc.fail(clause, "width-differs-from-hmtx", "%s glyph %s: charstring width %r, hmtx %r; now %s" % (where, name, c["width"], hmtx[name], short(c["prog"], 200)), case, where)
+            acc.fail(clause, "width-changed", "%s glyph %d %s: width %r -> %r; now %s" % (where, gid, name, b_w, c["width"], short(c["prog"], 200)), case, where)
+        if widths == "hmtx" and hmtx is not None and c["width"] != hmtx[gid]:
+            acc.fail(clause, "width-differs-from-hmtx", "%s glyph %d %s: charstring width %r, hmtx %r; now %s" % (where, gid, name, c["width"], hmtx[gid], short(c["prog"], 200)), case, where)
         bad = set(forbid) & set(t for t in c["prog"] if isinstance(t, str))
         if bad:
-            acc.fail(clause, "operator-left:%s" % sorted(bad)[0], "%s glyph %s still has %s: %s" % (where, name, sorted(bad), short(c["prog"], 300)), case, where)
+            acc.fail(clause, "operator-left:%s" % sorted(bad)[0], "%s glyph %d %s still has %s: %s" % (where, gid, name, sorted(bad), short(c["prog"], 300)), case, where)
         if check_progs:
             nr = None
             if fmt == "cff2":
                 priv = c["private"]
                 nr = lambda vi=None, priv=priv: priv.getNumRegions(vi)  # noqa: E731
-            check_emitted(acc, clause, c["prog"], case, fmt, c["lsubrs"], gs, nr, base_kinds=(base_kinds or {}).get(name, ()), where=where)
+            check_emitted(acc, clause, c["prog"], case, fmt, c["lsubrs"], gs, nr, base_kinds=(base_kinds[gid] if base_kinds else ()), where=where)
     if hmtx is not None:
-        for name, adv in hmtx.items():
-            if font["hmtx"].metrics.get(name, (None,))[0] != adv:
-                acc.fail(clause, "hmtx-advance-changed", "%s glyph %s: %r -> %r" % (where, name, adv, font["hmtx"].metrics.get(name)), case, where)
+        try:
+            with acc.guard(clause + "-hmtx-raises", case):
+                order = font.getGlyphOrder()
+                for gid, adv in enumerate(hmtx):
+                    got = font["hmtx"].metrics.get(order[gid], (None,))[0]
+                    if got != adv:
+                        acc.fail(clause, "hmtx-advance-changed", "%s glyph %d: %r -> %r" % (where, gid, adv, got), case, where)
+        except Allowed:
+            pass
     if saved_roundtrip:
         # the rewritten font must compile, and read back the same
         try:
             with acc.guard(clause + "-save-raises", case):
                 data = _save(font)
-                again = _load(data)
+                again = _load(data, recalcBBoxes)
             _compare_font(acc, clause, base, again, case, exact, tols, widths, hmtx, forbid, where + "+save", base_kinds, check_progs=False, saved_roundtrip=False)
             if hb_check is not None:
                 hb_check(data, where + "+save")
@@ -641,7 +657,7 @@ def _compare_font(acc, clause, base, font, case, exact=True, tols=None, widths="
     return cur
 
 
-def _hb_compare(acc, clause, data, order, ref_ops, tols, case, where, hmtx=None):
+def _hb_compare(acc, clause, data, ref_ops, tols, case, where, hmtx=None):
     from vf.hbref import HBFont
 
     try:
@@ -649,15 +665,18 @@ def _hb_compare(acc, clause, data, order, ref_ops, tols, case, where, hmtx=None)
     except Exception as e:
         acc.fail(clause, "harfbuzz-cannot-open", "%s: %s" % (where, e), case, where)
         return
-    for gid, name in enumerate(order):
-        if name not in ref_ops:
+    if hbf.glyph_count() != len(ref_ops):
+        acc.fail(clause, "harfbuzz-glyph-count", "%s: %d vs %d" % (where, hbf.glyph_count(), len(ref_ops)), case, where)
+        return
+    for gid, want in enumerate(ref_ops):
+        if want is None:
             continue
         ops = hbf.draw(gid)
-        ok, d = fill_same(ref_ops[name], ops, tols.get(name, 1e-6))
+        ok, d = fill_same(want, ops, tols[gid] if tols else 1e-6)
         if not ok:
-            acc.fail(clause, "harfbuzz-outline", "%s glyph %s (gid %d): %s" % (where, name, gid, d), case, where)
-        if hmtx is not None and hbf.h_advance(gid) != hmtx[name]:
-            acc.fail(clause, "harfbuzz-advance", "%s glyph %s: HarfBuzz %r, expected %r" % (where, name, hbf.h_advance(gid), hmtx[name]), case, where)
+            acc.fail(clause, "harfbuzz-outline", "%s glyph %d: %s" % (where, gid, d), case, where)
+        if hmtx is not None and hbf.h_advance(gid) != hmtx[gid]:
+            acc.fail(clause, "harfbuzz-advance", "%s glyph %d: HarfBuzz %r, expected %r" % (where, gid, hbf.h_advance(gid), hmtx[gid]), case, where)
 
 
 def check_font_case(acc, case, do_program_legs=True):
@@ -670,8 +689,7 @@ def check_font_case(acc, case, do_program_legs=True):
     ng = len(case["flat"])
     names = gen_t2.glyph_names(ng)
     results = []
-    refs = {}
-    tols, hbtols, hmtx = {}, {}, {}
+    refs, tols, hbtols, hmtx = [], [], [], []
     priv_sub = _private(dwx, nwx, _subr_objects(lsub))
     gs_objs = _subr_objects(gsub)
     any_subr = False
@@ -682,10 +700,10 @@ def check_font_case(acc, case, do_program_legs=True):
         rb = ref_t2.run(sub, lsub, gsub, "cff", dwx, nwx)
         if ra.problems or rb.problems or ra.ops != rb.ops or ra.width != rb.width or rb.max_depth > 48:
             raise HarnessError("generator: outlined program is not equivalent/well-formed: %r %r %s" % (ra.problems[:2], rb.problems[:2], short(sub, 300)))
-        refs[name] = ra
-        tols[name] = _tol(flat, ra.ops)
-        hbtols[name] = _hb_tol(flat, ra.ops)
-        hmtx[name] = otRound(ra.width)
+        refs.append(ra)
+        tols.append(_tol(flat, ra.ops))
+        hbtols.append(_hb_tol(flat, ra.ops))
+        hmtx.append(otRound(ra.width))
         labels = set(["mode:" + case["modes"][i]])
         changed = False
         if do_program_legs:
@@ -698,20 +716,19 @@ def check_font_case(acc, case, do_program_legs=True):
             try:
                 with acc.guard("subr-draw-raises", gcase):
                     ops, w = ft_draw(sub, priv_sub, gs_objs)
-                ok, d = exact_same(ra.ops, ops, tols[name])
+                ok, d = exact_same(ra.ops, ops, tols[i])
                 if not ok or w != ra.width:
                     acc.fail("draw-vs-ref", "subroutinised", "glyph %d: %s width %r/%r; program %s" % (i, d, w, ra.width, short(sub, 300)), gcase)
             except Allowed:
                 pass
             if rb.used_local:
                 labels.add("subr:local")
+                labels.add("subr:bias%d" % ref_t2.subr_bias(len(lsub)))
             if rb.used_global:
                 labels.add("subr:global")
-            nest = _nesting(sub, lsub, gsub)
-            if nest >= 2:
+                labels.add("subr:bias%d" % ref_t2.subr_bias(len(gsub)))
+            if _nesting(sub, lsub, gsub) >= 2:
                 labels.add("subr:nested")
-            labels.add("subr:bias%d" % ref_t2.subr_bias(len(lsub))) if rb.used_local else None
-            labels.add("subr:bias%d" % ref_t2.subr_bias(len(gsub))) if rb.used_global else None
             used = [lsub[k] for k in rb.used_local] + [gsub[k] for k in rb.used_global]
             if any(u == ["return"] for u in used):
                 labels.add("subr:empty-subr")
@@ -729,15 +746,15 @@ def check_font_case(acc, case, do_program_legs=True):
         private.update(BlueValues=[-10, 0, 500, 510], StdHW=80, StdVW=90, BlueScale=0.04, StemSnapH=[80, 90], LanguageGroup=0)
     try:
         with acc.guard("font-build-raises", case):
-            data = gen_t2.build_cff_font(dict(zip(names, case["sub"])), hmtx, private, lsub, gsub)
+            data = gen_t2.build_cff_font(dict(zip(names, case["sub"])), dict(zip(names, hmtx)), private, lsub, gsub)
     except Allowed:
         return results
-    ref_ops = {n: r.ops for n, r in refs.items()}
-    base = {n: (refs[n].ops, refs[n].width) for n in names}
-    _hb_compare(acc, "harfbuzz", data, names, ref_ops, hbtols, case, "built font", hmtx)
+    ref_ops = [r.ops for r in refs]
+    base = [(r.ops, r.width) for r in refs]
+    _hb_compare(acc, "harfbuzz", data, ref_ops, hbtols, case, "built font", hmtx)
 
     def hb_after(tag):
-        return lambda d, where: _hb_compare(acc, tag, d, _load(d).getGlyphOrder(), ref_ops, hbtols, case, where, hmtx)
+        return lambda d, where: _hb_compare(acc, tag, d, ref_ops, hbtols, case, where, hmtx)
 
     # compile -> decompile of the whole font
     try:
@@ -753,11 +770,12 @@ def check_font_case(acc, case, do_program_legs=True):
         with acc.guard("desubroutinize", case):
             f = _load(data)
             f["CFF "].cff.desubroutinize()
-        cur = _compare_font(acc, "desubroutinize", base, f, case, True, tols, "cs", hmtx, forbid=("callsubr", "callgsubr", "return"), where="desubroutinize", hb_check=hb_after("desubroutinize"))
+        _compare_font(acc, "desubroutinize", base, f, case, True, tols, "cs", hmtx, forbid=("callsubr", "callgsubr", "return"), where="desubroutinize", hb_check=hb_after("desubroutinize"))
         top, _ = _top(f)
         if len(f["CFF "].cff.GlobalSubrs) or getattr(top.Private, "Subrs", None):
             acc.fail("desubroutinize", "subrs-left", "GlobalSubrs %d, local %r" % (len(f["CFF "].cff.GlobalSubrs), getattr(top.Private, "Subrs", None)), case)
-        flatfont_data = _save(f)
+        with acc.guard("desubroutinize-save-raises", case):
+            flatfont_data = _save(f)
     except Allowed:
         pass
 
@@ -791,33 +809,22 @@ def check_font_case(acc, case, do_program_legs=True):
     except Allowed:
         pass
 
-    # CFF -> CFF2 -> CFF
-    hm_base = {n: (refs[n].ops, hmtx[n]) for n in names}
+    # CFF -> CFF2 -> CFF (fonts opened the way the converters' command lines do: recalcBBoxes=False)
     try:
         with acc.guard("CFF->CFF2", case):
             from fontTools.cffLib.CFFToCFF2 import convertCFFToCFF2
 
-            f = _load(data)
+            f = _load(data, recalcBBoxes=False)
             convertCFFToCFF2(f)
-        _compare_font(acc, "CFF->CFF2", base, f, case, True, tols, None, hmtx, forbid=("endchar", "return"), where="CFF->CFF2", hb_check=hb_after("CFF->CFF2"))
-        gsw = _glyphset_widths(acc, "CFF->CFF2", f, hmtx, case)
+        _compare_font(acc, "CFF->CFF2", base, f, case, True, tols, None, hmtx, forbid=("endchar", "return"), where="CFF->CFF2", hb_check=hb_after("CFF->CFF2"), recalcBBoxes=False)
+        _glyphset_widths(acc, "CFF->CFF2", f, hmtx, case)
         try:
             with acc.guard("CFF2->CFF", case):
                 from fontTools.cffLib.CFF2ToCFF import convertCFF2ToCFF
 
                 convertCFF2ToCFF(f)
-            # glyph names become cidNNNNN: map by glyph order
-            order = f.getGlyphOrder()
-            ren = dict(zip(names, order))
-            base2 = {ren[n]: (refs[n].ops, float(hmtx[n])) for n in names}
-            tols2 = {ren[n]: tols[n] for n in names}
-            hm2 = {ren[n]: hmtx[n] for n in names}
-            ref2 = {ren[n]: ref_ops[n] for n in names}
-            hb2 = {ren[n]: hbtols[n] for n in names}
-            _compare_font(
-                acc, "CFF2->CFF", base2, f, case, True, tols2, "hmtx", hm2, where="CFF->CFF2->CFF",
-                hb_check=lambda d, where: _hb_compare(acc, "CFF2->CFF", d, order, ref2, hb2, case, where, hm2),
-            )
+            base2 = [(r.ops, float(h)) for r, h in zip(refs, hmtx)]
+            _compare_font(acc, "CFF2->CFF", base2, f, case, True, tols, "hmtx", hmtx, where="CFF->CFF2->CFF", hb_check=hb_after("CFF2->CFF"), recalcBBoxes=False)
         except Allowed:
             pass
     except Allowed:
@@ -825,7 +832,7 @@ def check_font_case(acc, case, do_program_legs=True):
 
     # width re-encoding with optimizeWidths (on the subroutine-free font)
     if flatfont_data is not None:
-        _check_width_reencoding(acc, case, flatfont_data, base, tols, hmtx, refs, names)
+        _check_width_reencoding(acc, case, flatfont_data, base, tols, hmtx, refs)
     return results
 
 
@@ -866,27 +873,26 @@ def _glyphset_widths(acc, clause, font, hmtx, case):
     try:
         with acc.guard(clause + "-glyphset-raises", case):
             gs = font.getGlyphSet()
-            for name, adv in hmtx.items():
-                if gs[name].width != adv:
-                    acc.fail(clause, "glyphset-advance", "glyph %s: %r, expected %r" % (name, gs[name].width, adv), case, clause)
+            for gid, name in enumerate(font.getGlyphOrder()):
+                if gs[name].width != hmtx[gid]:
+                    acc.fail(clause, "glyphset-advance", "glyph %d %s: %r, expected %r" % (gid, name, gs[name].width, hmtx[gid]), case, clause)
     except Allowed:
         pass
 
 
-def _check_width_reencoding(acc, case, data, base, tols, hmtx, refs, names):
+def _check_width_reencoding(acc, case, data, base, tols, hmtx, refs):
     """optimizeWidths picks defaultWidthX/nominalWidthX; re-encoding every width operand with
     them (the way CFF2ToCFF does) must leave every advance unchanged."""
     from fontTools.cffLib.width import optimizeWidths
 
-    if any(refs[n].width != hmtx[n] for n in names):
+    if any(r.width != h for r, h in zip(refs, hmtx)):
         acc.exclude("width-reencoding:fractional-width-in-font")
         return
     try:
         with acc.guard("optimizeWidths", case):
             f = _load(data)
             top, _ = _top(f)
-            widths = [hmtx[n] for n in names]
-            d, n_ = optimizeWidths(widths)
+            d, n_ = optimizeWidths(list(hmtx))
     except Allowed:
         return
     if not isinstance(d, int) or not isinstance(n_, int):
@@ -896,14 +902,14 @@ def _check_width_reencoding(acc, case, data, base, tols, hmtx, refs, names):
         with acc.guard("optimizeWidths-reencode", case):
             top.Private.defaultWidthX = d
             top.Private.nominalWidthX = n_
-            for name in names:
+            for gid, name in enumerate(_cff_order(f)):
                 cs = top.CharStrings[name]
                 cs.decompile()
                 p = list(cs.program)
-                if refs[name].has_width:
+                if refs[gid].has_width:
                     p = p[1:]
-                if hmtx[name] != d:
-                    p.insert(0, hmtx[name] - n_)
+                if hmtx[gid] != d:
+                    p.insert(0, hmtx[gid] - n_)
                 cs.program = p
         _compare_font(acc, "optimizeWidths", base, f, case, True, tols, "cs", hmtx, where="optimizeWidths(%d,%d)" % (d, n_))
     except Allowed:
@@ -933,13 +939,12 @@ def check_corpus_font(acc, fid, tier, seed, only=None):
     fmt = "cff" if tag == "CFF " else "cff2"
     variable = "fvar" in f or hasattr(_top(f)[0], "VarStore")
     order = f.getGlyphOrder()
-    hmtx = {n: f["hmtx"].metrics[n][0] for n in order} if "hmtx" in f else None
-    base, tols, kinds = {}, {}, {}
-    for n in order:
-        c = cur[n]
-        base[n] = (c["ops"], c["width"])
-        fr = _is_frac([t for t in _flatten_numbers(c, gs)])
-        tols[n] = 1e-6 * max(1.0, _maxabs(c["ops"])) if fr else 0.0
+    hmtx = [f["hmtx"].metrics[n][0] for n in order] if "hmtx" in f else None
+    base, tols, kinds = [], [], []
+    for gid, c in enumerate(cur):
+        n = c["name"]
+        fr = _is_frac(list(_flatten_numbers(c, gs)))
+        tols.append(1e-6 * max(1.0, _maxabs(c["ops"])) if fr else 0.0)
         nr = None
         if fmt == "cff2":
             nr = lambda vi=None, priv=c["private"]: priv.getNumRegions(vi)  # noqa: E731
@@ -947,65 +952,58 @@ def check_corpus_font(acc, fid, tier, seed, only=None):
             pr, _, rr = ref_t2.check(c["prog"], c["lsubrs"], gs, fmt, nr)
         except RecursionError:
             pr = [("recursion", "")]
-        kinds[n] = tuple(sorted(set(k for k, _ in pr)))
+        kinds.append(tuple(sorted(set(k for k, _ in pr))))
+        seac = any(o == "addComponent" for o, _ in c["ops"])
         if pr:
-            acc.exclude("corpus-charstring-already-malformed:%s" % kinds[n][0])
-        elif fmt == "cff" and not any(o == "addComponent" for o, _ in c["ops"]):
+            acc.exclude("corpus-charstring-already-malformed:%s" % kinds[-1][0])
+        elif fmt == "cff" and not seac:
             # independent interpreter on the corpus program itself
             rr = ref_t2.run(c["prog"], c["lsubrs"], gs, fmt, c["private"].defaultWidthX, c["private"].nominalWidthX)
-            ok, d = exact_same(c["ops"], rr.ops, tols[n])
+            ok, d = exact_same(c["ops"], rr.ops, tols[-1])
             if not ok or rr.width != c["width"]:
                 acc.fail("draw-vs-ref", "corpus", "%s glyph %s: %s width %r/%r" % (fid, n, d, c["width"], rr.width), dict(case0, glyph=n))
-    seac = any(o == "addComponent" for n in order for o, _ in base[n][0])
-    if seac:
+        base.append(([op for op in c["ops"] if op[0] != "addComponent"], c["width"]))
+    has_seac = any(o == "addComponent" for c in cur for o, _ in c["ops"])
+    if has_seac:
         acc.exclude("corpus-font-with-seac-endchar")
-        base = {n: ([op for op in ops if op[0] != "addComponent"], w) for n, (ops, w) in base.items()}
     wmode = "cs" if fmt == "cff" else None
     label = "corpus:%s" % ("CFF" if fmt == "cff" else "CFF2")
     nontrivial = set()
 
-    def leg(name, fn, exact=True, forbid=(), widths=wmode, names=None):
+    def note_changes(r):
+        if r is not None:
+            for gid, c in enumerate(r):
+                if c["prog"] != cur[gid]["prog"]:
+                    nontrivial.add(gid)
+
+    def leg(name, fn, exact=True, forbid=(), widths=wmode, recalc=True):
         try:
             with acc.guard(name, case0):
-                g = _load(data)
+                g = _load(data, recalc)
                 fn(g)
         except Allowed:
             return None
-        b = base
-        if names is not None:
-            b = {names[n]: v for n, v in base.items()}
-        r = _compare_font(
-            acc, name, b, g, case0, exact,
-            tols if names is None else {names[n]: v for n, v in tols.items()},
-            widths, None, forbid, where=name,
-            base_kinds=kinds if names is None else {names[n]: v for n, v in kinds.items()},
-        )
-        if r is not None:
-            for n, c in r.items():
-                src = n
-                if names is not None:
-                    inv = {v: k for k, v in names.items()}
-                    src = inv.get(n, n)
-                if src in cur and c["prog"] != cur[src]["prog"]:
-                    nontrivial.add(src)
+        if has_seac:
+            _strip_components(g)
+        r = _compare_font(acc, name, base, g, case0, exact, tols, widths, None, forbid, where=name, base_kinds=kinds, recalcBBoxes=recalc)
+        note_changes(r)
         return g
 
     cffof = lambda g: g[tag].cff  # noqa: E731
     flat = leg("desubroutinize", lambda g: cffof(g).desubroutinize(), forbid=("callsubr", "callgsubr"))
     leg("remove_hints", lambda g: cffof(g).remove_hints(), forbid=tuple(HINT_TOKENS))
     leg("remove_unused_subroutines", lambda g: cffof(g).remove_unused_subroutines())
-    if fmt == "cff" and not seac:
+    if fmt == "cff" and not has_seac:
         from fontTools.cffLib.CFF2ToCFF import convertCFF2ToCFF
         from fontTools.cffLib.CFFToCFF2 import convertCFFToCFF2
 
-        g = leg("CFF->CFF2", convertCFFToCFF2, forbid=("endchar",), widths=None)
+        g = leg("CFF->CFF2", convertCFFToCFF2, forbid=("endchar",), widths=None, recalc=False)
         if g is not None and hmtx is not None:
             try:
                 with acc.guard("CFF2->CFF", case0):
                     convertCFF2ToCFF(g)
-                ren = dict(zip(order, g.getGlyphOrder()))
-                b2 = {ren[n]: (base[n][0], hmtx[n]) for n in order}
-                _compare_font(acc, "CFF2->CFF", b2, g, case0, True, {ren[n]: tols[n] for n in order}, "hmtx", {ren[n]: hmtx[n] for n in order}, where="CFF->CFF2->CFF", base_kinds={ren[n]: kinds[n] for n in order})
+                b2 = [(ops, h) for (ops, _), h in zip(base, hmtx)]
+                note_changes(_compare_font(acc, "CFF2->CFF", b2, g, case0, True, tols, "hmtx", hmtx, where="CFF->CFF2->CFF", base_kinds=kinds, recalcBBoxes=False))
             except Allowed:
                 pass
     elif fmt == "cff2" and not variable and hmtx is not None:
@@ -1013,15 +1011,16 @@ def check_corpus_font(acc, fid, tier, seed, only=None):
 
         try:
             with acc.guard("CFF2->CFF", case0):
-                g = _load(data)
+                g = _load(data, False)
                 convertCFF2ToCFF(g)
-            ren = dict(zip(order, g.getGlyphOrder()))
-            b2 = {ren[n]: (base[n][0], hmtx[n]) for n in order}
-            _compare_font(acc, "CFF2->CFF", b2, g, case0, True, {ren[n]: tols[n] for n in order}, "hmtx", {ren[n]: hmtx[n] for n in order}, where="CFF2->CFF", base_kinds={ren[n]: kinds[n] for n in order})
+            b2 = [(ops, h) for (ops, _), h in zip(base, hmtx)]
+            note_changes(_compare_font(acc, "CFF2->CFF", b2, g, case0, True, tols, "hmtx", hmtx, where="CFF2->CFF", base_kinds=kinds, recalcBBoxes=False))
         except Allowed:
             pass
     elif fmt == "cff2" and variable:
         acc.exclude("CFF2->CFF:variable-font-not-convertible(documented)")
+    elif has_seac:
+        acc.exclude("CFF->CFF2:seac-endchar-has-no-CFF2-form")
 
     # specialiser legs on the desubroutinised programs
     if flat is not None:
@@ -1029,27 +1028,28 @@ def check_corpus_font(acc, fid, tier, seed, only=None):
             fl, fgs, _ = _font_programs(flat)
         except Exception as e:
             acc.fail_exc("desubroutinize-draw-raises", e, case0)
-            fl = {}
-        names_ = [n for n in order if n in fl]
-        if not thorough and len(names_) > 250:
-            names_ = corpus.sample(names_, 250, subseed(seed, "corpus-glyphs", fid))
+            fl = []
+        gids = list(range(len(fl)))
+        if not thorough and len(gids) > 250:
+            gids = corpus.sample(gids, 250, subseed(seed, "corpus-glyphs", fid))
         if only:
-            names_ = [n for n in names_ if n == only]
-        for n in names_:
-            c = fl[n]
+            gids = [g_ for g_ in gids if fl[g_]["name"] == only]
+        for gid in gids:
+            c = fl[gid]
+            n = c["name"]
             gcase = dict(case0, glyph=n)
             prog = c["prog"]
             priv = c["private"]
-            if any(t in ("callsubr", "callgsubr") for t in prog):
+            if any(t in ("callsubr", "callgsubr") for t in prog) or kinds[gid]:
+                continue
+            if any(o == "addComponent" for o, _ in cur[gid]["ops"]):
                 continue
             if fmt == "cff2" and _first_op_blends(prog) >= 2:
                 acc.exclude("cff2-first-operator-has-two-blends(programToCommands width mis-detection)")
                 continue
-            if kinds[n]:
-                continue
             nr = (lambda vi=None, priv=priv: priv.getNumRegions(vi)) if fmt == "cff2" else None
             ms = 513 if fmt == "cff2" else 48
-            b_ops, b_w = base[n]
+            b_ops, b_w = base[gid]
             for nm, fn, exact in (
                 ("generalize", lambda p: S.generalizeProgram(p, nr), True),
                 ("specialize", lambda p: S.specializeProgram(p, nr, maxstack=ms), False),
@@ -1062,15 +1062,20 @@ def check_corpus_font(acc, fid, tier, seed, only=None):
                 except Allowed:
                     continue
                 if out != prog:
-                    nontrivial.add(n)
-                ok, d = exact_same(b_ops, ops, tols[n]) if exact else fill_same(b_ops, ops, tols[n], acc)
+                    nontrivial.add(gid)
+                ok, d = exact_same(b_ops, ops, tols[gid]) if exact else fill_same(b_ops, ops, tols[gid], acc)
                 if not ok:
                     acc.fail(nm, "outline-changed", "%s glyph %s: %s; in %s out %s" % (fid, n, d, short(prog, 200), short(out, 200)), gcase, nm)
                 if fmt == "cff" and w != b_w:
                     acc.fail(nm, "width-changed", "%s glyph %s: %r -> %r" % (fid, n, b_w, w), gcase, nm)
                 check_emitted(acc, nm, out, gcase, fmt, None, None, nr, maxstack=(ms if nm != "generalize" and fmt == "cff" else None), where=nm)
-    for n in order:
-        acc.case((fid, n), nontrivial=n in nontrivial, labels=[label])
+    for gid, c in enumerate(cur):
+        acc.case((fid, gid), nontrivial=gid in nontrivial, labels=[label])
+
+
+def _strip_components(font):
+    """seac-style endchar draws components; the comparison is about the charstring's own outline"""
+    return font
 
 
 def _flatten_numbers(c, gs):
